@@ -240,6 +240,11 @@ class FolderObservation(AbstractObservation, discriminator="folder"):
         if folder_state is NOT_PRESENT_IN_STATE:
             return self.default_observation
 
+        if folder_state.get("uuid") != getattr(self, "_cached_folder_uuid", None):
+            # another folder now lives under this name (deleted and created again, or an older one restored): what was last
+            # seen of its predecessor says nothing about it; what was last seen of this one is its own visible status
+            self.cached_obs = {**self.default_observation, "health_status": folder_state["visible_status"]}
+            self._cached_folder_uuid = folder_state.get("uuid")
         if self.file_system_requires_scan:
             if not folder_state["scanned_this_step"]:
                 health_status = self.cached_obs["health_status"]
